@@ -14,3 +14,6 @@ import MicroHttp.Props.Tables
 #print axioms MicroHttp.Tables.server_set_limit
 #print axioms MicroHttp.Tables.conn_set_limit
 #print axioms MicroHttp.Tables.accept_configures_limit
+#print axioms MicroHttp.Tables.conn_fields
+#print axioms MicroHttp.Tables.reset_block
+#print axioms MicroHttp.Tables.client_fields
